@@ -49,8 +49,82 @@ def _run(pid, tier):
     rep.add_tlc("MC_MulgridADT depth<=%d (rename/delete/set_surface/split on two squares): P1-P7, conforming, area/volume/tiling" % depth, r)
     if r.violated:
         raise tlc.MachineryError("MulgridADT violates " + str(r.violated))
-    # ---- C2S (a): exhaustive short operation sequences on small lattice meshes
     traces, meta = [], []
+    # ---- S2C: every behaviour of the model (the exactly specified edits on two squares) up to that depth is driven through the
+    # real mulgrid; the recorded executions join the traces validated below, so each step is matched against its action
+    paths_mod = ("---- MODULE MC_MulgridPaths ----\nEXTENDS MC_MulgridADT, Json\nVARIABLE path\n"
+                 "PInit == MCInit /\\ path = <<>>\n"
+                 "PNext == Next /\\ path' = Append(path, [op |-> last'.op, args |-> last'.args])\n"
+                 "PDepth == TLCGet(\"level\") <= %d\n"
+                 "Emit == path = <<>> \\/ PrintT(\"EMIT\" \\o ToJson(path))\n====\n" % depth)
+    paths_cfg = ('CONSTANTS AtmType = 0\nAtmCol = "ATM"\nFreshNames = {"  x", "  y"}\nINIT PInit\nNEXT PNext\nCONSTRAINT PDepth\n'
+                 'CONSTRAINT Emit\nCHECK_DEADLOCK FALSE\n')
+    rp = tlc.run_tlc("MC_MulgridPaths", None, cfg_text=paths_cfg, workers=1, timeout=3000, heap="8g",
+                     extra_modules={"MC_MulgridPaths.tla": paths_mod, "MC_MulgridADT.tla": mcmod}, allow_violation=False)
+    rep.add_tlc("MC_MulgridPaths depth<=%d: every behaviour of the exactly specified edits exported for replay" % depth, rp)
+    seen_paths, todo = set(), []
+    for path in rp.emitted:
+        k_ = json.dumps(path)
+        if k_ not in seen_paths:
+            seen_paths.add(k_)
+            todo.append(path)
+    if len(todo) > 4000:
+        short_ = [p_ for p_ in todo if len(p_) < depth - 1]
+        long_ = [p_ for p_ in todo if len(p_) >= depth - 1]
+        rng.shuffle(long_)
+        todo = short_ + long_[:4000 - len(short_)]
+    base2 = mgmodel.Adapter(mgmodel.lattice_mesh("2sq"))
+    base2.project()
+    import copy as _cp
+    nreplayed = 0
+    for path in todo:
+        ad = _cp.deepcopy(base2)
+        names = {}                      # the model's fresh column names -> the names the library chose
+        t = mgmodel.record(ad, [])
+        ok = True
+        for a in path:
+            args = list(a["args"])
+            nm = lambda x: names.get(x, x)
+            if a["op"] == "rename_column":
+                act = {"op": "rename_column", "args": [nm(args[0]), args[1]]}
+                names[args[1]] = args[1]
+                if args[0] in names and names[args[0]] != args[0]:
+                    pass
+            elif a["op"] == "delete_column":
+                act = {"op": "delete_column", "args": [nm(args[0])]}
+            elif a["op"] == "set_surface":
+                act = {"op": "set_surface", "args": [nm(args[0]), int(args[1])]}
+            elif a["op"] == "split_column":
+                act = {"op": "split_column", "args": [nm(args[0]), args[1]]}
+            else:
+                ok = False
+                break
+            if act["op"] == "rename_column" and act["args"][1] in ad.geo.column:
+                ok = False              # the library's own choice of a new name already took the model's fresh name
+                break
+            step = mgmodel.record(ad, [act])[1:]
+            t = t + step
+            if "error" in step[-1]:
+                break
+            if a["op"] == "split_column":
+                got = step[-1]["act"]
+                if got["op"] != "split_column":
+                    if "raised" in mine:
+                        rep.violation("s2c:split_column:refused", "raised", {"mesh": "2sq", "actions": [x["act"] for x in t],
+                                                                            "difference": "the model splits this column, the library refuses"})
+                    ok = False
+                    break
+                names[args[2]] = got["args"][2]
+            if a["op"] == "rename_column":
+                for k2 in list(names):
+                    if names[k2] == act["args"][0]:
+                        names[k2] = args[1]
+        if ok:
+            traces.append(t)
+            meta.append(("2sq-s2c", t))
+            nreplayed += 1
+    rep.extra["s2c_behaviours_replayed"] = nreplayed
+    # ---- C2S (a): exhaustive short operation sequences on small lattice meshes
     meshes = ["2x2", "3x2", "mixed", "trap"] if quick else ["2x2", "3x2", "3x3", "mixed", "trap"]
     for kind in meshes:
         import copy
